@@ -831,3 +831,52 @@ def rw_assert_after_push_pairs(toks, counts, receiver, assertion, skip=()):
         n += 1
     counts["push_pairs"] = len(pairs)
     return out
+
+
+def rw_for_to_while_let(toks, counts, iter_name="iter_"):
+    """R1c: desugaring of `for PAT in EXPR BLOCK` over a value that is itself an Iterator:
+            { let mut ITER = EXPR; while let Some(PAT) = ITER.next() BLOCK }
+    (IntoIterator::into_iter is the identity on iterators; Verus has no for-loop support for user iterators)."""
+    n = 0
+    while True:
+        si = sig_idx(toks)
+        hit = None
+        for a in range(len(si)):
+            if toks[si[a]].kind == "id" and toks[si[a]].text == "for":
+                # `for<'a>` in types is followed by `<`
+                if toks[si[a + 1]].text == "<":
+                    continue
+                d = 0
+                k = si[a] + 1
+                in_i = None
+                while k < len(toks):
+                    tk = toks[k]
+                    if tk.kind == "p":
+                        if tk.text in OPEN:
+                            if tk.text == "{" and d == 0 and in_i is not None:
+                                break
+                            d += 1
+                        elif tk.text in ")]}":
+                            d -= 1
+                    if d == 0 and tk.kind == "id" and tk.text == "in" and in_i is None:
+                        in_i = k
+                    k += 1
+                if in_i is None or k >= len(toks):
+                    continue
+                bo = k
+                bc = match_close(toks, bo)
+                pat = text(toks[si[a] + 1:in_i]).strip()
+                expr = text(toks[in_i + 1:bo]).strip()
+                body = text(toks[bo:bc + 1])
+                new = "{ let mut %s = %s; while let Some(%s) = %s.next() %s }" % (iter_name, expr, pat, iter_name, body)
+                hit = (si[a], bc + 1, new)
+                break
+        if not hit:
+            break
+        s, e, new = hit
+        toks = toks[:s] + relex(new) + toks[e:]
+        n += 1
+    if n == 0:
+        raise LostAnchor("no for loop found")
+    _count(counts, "R1", n)
+    return toks
